@@ -135,6 +135,12 @@ CLAIMS = {
         "note": "Finite operand universe (dims 2,3; ranks <= 4). Canonical operand ordering is decided by C29; math functions, conditionals and compound tensor operators are covered by C24 / C06 / C23 for evaluation and lowering, their constructors' literal folding is not lifted here. " + TB,
         "technique": "abstract interpretation of constructor code on structured symbolic operands (reference meaning attached to every node built) + exact comparison with the reference semantics of index notation",
     },
+    "C01": {
+        "level": "other",
+        "text": "What is specific to the pipeline (the integrand passes themselves are C02-C10, C15, C17, C23): (1) compute_integrand_scaling_factor lifted for every integral type declared in ufl/measure.py x topological dimension 0..3 and compared with the change-of-variables factor of the integration entity (dimension tdim - codim: |detJ| / detFJ (on '+' for interior facets) / detRJ times the quadrature weight, 1 for points, weight only for run-time quadrature types, rejection below dimension 0) and the degree it reports; (2) apply_integral_scaling lifted: scale multiplied once inside every nested CoordinateDerivative, estimated degrees added for all int/tuple combinations, nothing else of the integral changed, input metadata not written; (3) compute_form_data + preprocess_form lifted with recording stubs for all 512 combinations of their 9 boolean options: the trace of passes and their arguments must satisfy the pipeline contract (each option switches exactly its pass; algebra lowering before the first derivative expansion; every pass that can introduce derivative nodes is followed by apply_derivatives and every derivative expansion that can introduce Jacobian inverses by geometry lowering; component tensors removed right before Jacobian cancellation; Jacobian family preserved by the lowering calls before the cancellation, and only then, and lowered afterwards with the caller's preserve set; complex nodes removed iff real mode, comparison check iff complex mode; degrees estimated before pullbacks/scaling/lowering; options handed to group_form_integrals and FormData are the caller's); (4) FormData.__init__ runs the element, facet-geometry and arity checks on every normal exit; (5) the integrand pipeline composed from the lifted passes on symbolic integrands (see evidence for the cases covered).",
+        "note": "Necessary conditions of the property plus the composition on a finite family; FormData's coefficient renumbering/splitting, MeshSequence paths and apply_coordinate_derivatives are not lifted. " + TB,
+        "technique": "abstract interpretation of the pipeline driver over all option combinations with recording stubs (trace contract), lifting of the scaling table and of apply_integral_scaling against a change-of-variables oracle, must-pass-through on the AST for the final checks",
+    },
     "C29": {
         "level": "other",
         "text": "cmp_expr and the terminal comparators (dispatch table _terminal_cmps built by evaluating sorting.py's own module-level assignments) are lifted and evaluated on all ordered pairs of a finite universe of abstract expressions (every terminal kind with a dedicated comparator, repr-ordered terminals, multi-indices of different lengths and fixed/free patterns incl. the prefix triple, counters across a digit boundary, operators with shared and with duplicated equal sub-expressions, nodes with different operand counts, arguments with and without parts): antisymmetry on all pairs, transitivity on all triples, ties only between expressions equal up to Index/Label numbers, and an unchanged sign matrix under renumbering of indices and labels (no comparator reads those counts). Sum, Product and Inner __new__ are lifted on both operand orders of every distinguishable pair and must build the same node.",
